@@ -103,11 +103,11 @@ theorem wrapped_before_handshake (s : State) (sid seq : Nat) (macOk : Bool) (inn
 
 /-- The only plain frame ever passed on is the SessionResponse, and only while the session is not
 initialized; no plain frame touches the counters or the initialized flag. -/
-theorem plain_rule (s : State) (sid svc : Nat) (macOk : Bool) :
+theorem plain_rule (s : State) (sid svc : Nat) (macOk : Bool) (es : Nat := 0) :
     (rxPlain s svc).1 = .drop ∧ (rxPlain s svc).2 = s ∧
-    ((rxResponse s sid macOk).1 = .fwd ↔ s.initialized = false) ∧
-    (rxResponse s sid macOk).2.seqRecv = s.seqRecv ∧ (rxResponse s sid macOk).2.seqSend = s.seqSend ∧
-    (rxResponse s sid macOk).2.initialized = s.initialized := by
+    ((rxResponse s sid macOk es).1 = .fwd ↔ s.initialized = false) ∧
+    (rxResponse s sid macOk es).2.seqRecv = s.seqRecv ∧ (rxResponse s sid macOk es).2.seqSend = s.seqSend ∧
+    (rxResponse s sid macOk es).2.initialized = s.initialized := by
   refine ⟨rfl, rfl, ?_, ?_, ?_, ?_⟩ <;> unfold rxResponse <;>
     by_cases hi : s.initialized = true <;> by_cases hc : s.connecting = true <;> simp [hi, hc]
 
@@ -115,7 +115,7 @@ theorem plain_rule (s : State) (sid svc : Nat) (macOk : Bool) :
 
 /-- the sequence number a forwarded wrapper carried -/
 def fwdSeq : Obs → Option Nat
-  | .rxw _ _ seq _ _ .fwd => some seq
+  | .rxw _ _ seq _ _ _ _ .fwd => some seq
   | _ => none
 
 def isConn : Obs → Bool
@@ -128,15 +128,15 @@ def isPoke : Obs → Bool
 
 /-- the plain frame an observation wrote, if any -/
 def plainWritten : Obs → Option Nat
-  | .ap _ svc => some svc
+  | .ap _ svc _ => some svc
   | .snd _ svc _ .plain => some svc
   | _ => none
 
 /-- the sequence number of the wrapper an observation wrote, if any -/
 def wrappedWritten : Obs → Option Nat
-  | .aw _ seq _ _ _ _ => some seq
-  | .snd _ _ _ (.wrapped seq) => some seq
-  | .stop _ (.wrapped seq) => some seq
+  | .aw _ seq _ _ _ _ _ _ => some seq
+  | .snd _ _ _ (.wrapped seq _ _) => some seq
+  | .stop _ (.wrapped seq _ _) => some seq
   | _ => none
 
 /-- How one accepted observation moves the receive counter. -/
@@ -146,8 +146,8 @@ theorem recv_counter_step (s s' : State) (o : Obs) (h : step? s o = some s') :
   obtain ⟨sa, hadv, hm⟩ := step_cases h
   obtain ⟨-, -, -, -, -, hin, -, hrecv, -⟩ := advance_fields hadv
   cases o with
-  | rxw t sid seq macOk inner out =>
-    obtain ⟨hout, hs'⟩ := hm
+  | rxw t sid seq macOk inner ek es out =>
+    obtain ⟨-, hout, hs'⟩ := hm
     cases out with
     | fwd =>
       have := wrapped_forward_sound sa s' sid seq macOk inner (by rw [hs', hout])
@@ -164,16 +164,16 @@ theorem recv_counter_step (s s' : State) (o : Obs) (h : step? s o = some s') :
       refine ⟨fun q hq => by simp [fwdSeq] at hq, fun _ _ => ?_⟩
       rw [hs', wrapped_reject_keeps_state sa sid seq macOk inner (by rw [← hout]; simp), hrecv]
   | conn t dap => exact ⟨fun q hq => by simp [fwdSeq] at hq, fun _ hc => by simp [isConn] at hc⟩
-  | rxr t sid macOk out =>
+  | rxr t sid macOk es out =>
     refine ⟨fun q hq => by simp [fwdSeq] at hq, fun _ _ => ?_⟩
-    rw [hm.2, (plain_rule sa sid 0 macOk).2.2.2.1, hrecv]
+    rw [hm.2, (plain_rule sa sid 0 macOk es).2.2.2.1, hrecv]
   | rxp t svc out =>
     refine ⟨fun q hq => by simp [fwdSeq] at hq, fun _ _ => ?_⟩
     rw [hm.2.2.2, hrecv]
-  | ap t svc =>
+  | ap t svc kp =>
     refine ⟨fun q hq => by simp [fwdSeq] at hq, fun _ _ => ?_⟩
-    rw [hm.2.2.2.2, hrecv]
-  | aw t seq svc aux ok sid =>
+    rw [hm.2.2.2.2.2]; exact hrecv
+  | aw t seq svc aux ok sid ek es =>
     refine ⟨fun q hq => by simp [fwdSeq] at hq, fun _ _ => ?_⟩
     rw [(autoWrite_spec hm).2.2.2.2.1, hrecv]
   | snd t svc aux out =>
@@ -244,28 +244,28 @@ theorem write_step (s s' : State) (o : Obs) (h : step? s o = some s') :
   | conn t dap =>
     refine ⟨fun _ hp => by simp [plainWritten] at hp, fun _ hw => by simp [wrappedWritten] at hw,
       fun _ hc => by simp [isConn] at hc, fun _ _ _ => by rw [hm.2]⟩
-  | rxr t sid macOk out =>
+  | rxr t sid macOk es out =>
     refine ⟨fun _ hp => by simp [plainWritten] at hp, fun _ hw => by simp [wrappedWritten] at hw,
       fun _ _ _ => ?_, fun _ _ hc => by cases hc⟩
-    rw [hm.2, (plain_rule sa sid 0 macOk).2.2.2.2.1, hsend]
+    rw [hm.2, (plain_rule sa sid 0 macOk es).2.2.2.2.1, hsend]
   | rxp t svc out =>
     refine ⟨fun _ hp => by simp [plainWritten] at hp, fun _ hw => by simp [wrappedWritten] at hw,
       fun _ _ _ => by rw [hm.2.2.2]; exact hsend, fun _ _ hc => by cases hc⟩
-  | rxw t sid seq macOk inner out =>
+  | rxw t sid seq macOk inner ek es out =>
     refine ⟨fun _ hp => by simp [plainWritten] at hp, fun _ hw => by simp [wrappedWritten] at hw,
       fun _ _ _ => ?_, fun _ _ hc => by cases hc⟩
-    rw [hm.2, ← hsend]
+    rw [hm.2.2, ← hsend]
     by_cases hf : (rxWrapped sa sid seq macOk inner).1 = .fwd
     · have := wrapped_forward_sound sa (rxWrapped sa sid seq macOk inner).2 sid seq macOk inner (by rw [← hf])
       rw [this.2.2.2.2.2]
     · rw [wrapped_reject_keeps_state sa sid seq macOk inner hf]
-  | ap t svc =>
+  | ap t svc kp =>
     refine ⟨fun svc' hp => ?_, fun _ hw => by simp [wrappedWritten] at hw,
-      fun _ _ _ => by rw [hm.2.2.2.2]; exact hsend, fun _ _ hc => by cases hc⟩
+      fun _ _ _ => by rw [hm.2.2.2.2.2]; exact hsend, fun _ _ hc => by cases hc⟩
     simp only [plainWritten, Option.some.injEq] at hp
     subst hp
     exact ⟨by rw [← hin]; exact hm.1, hm.2.2.2.1⟩
-  | aw t seq svc aux ok sid =>
+  | aw t seq svc aux ok sid ek es =>
     refine ⟨fun _ hp => by simp [plainWritten] at hp, fun q hw => ?_,
       fun hw => by simp [wrappedWritten] at hw, fun _ _ hc => by cases hc⟩
     simp only [wrappedWritten, Option.some.injEq] at hw
@@ -274,26 +274,26 @@ theorem write_step (s s' : State) (o : Obs) (h : step? s o = some s') :
     exact ⟨by rw [← hsend]; exact a, b, c⟩
   | snd t svc aux out =>
     obtain ⟨hout, hs'⟩ := hm
-    obtain ⟨p1, p2, p3, -, -, -⟩ := send_spec sa svc
+    obtain ⟨p1, p2, p3, -, -, -, -⟩ := send_spec sa svc
     refine ⟨fun svc' hp => ?_, fun q hw => ?_, fun hw _ _ => ?_, fun _ _ hc => by cases hc⟩
     · cases out <;> simp only [plainWritten, Option.some.injEq, reduceCtorEq] at hp
       subst hp
       rw [← hin]; exact p1 hout.symm
     · cases out <;> simp only [wrappedWritten, Option.some.injEq, reduceCtorEq] at hw
       subst hw
-      obtain ⟨a, b, c, -⟩ := p2 _ hout.symm
+      obtain ⟨a, b, c, -⟩ := p2 _ _ _ hout.symm
       exact ⟨by rw [← hsend]; exact a, b, by rw [hs']; exact c⟩
-    · rw [hs', p3 (fun q hq => by rw [← hout] at hq; rw [hq] at hw; simp [wrappedWritten] at hw), hsend]
+    · rw [hs', p3 (fun q ek es hq => by rw [← hout] at hq; rw [hq] at hw; simp [wrappedWritten] at hw), hsend]
   | stop t out =>
     obtain ⟨hout, hs'⟩ := hm
-    obtain ⟨-, p2, p3, -, -⟩ := stop_spec sa
+    obtain ⟨-, p2, p3, -, -, -⟩ := stop_spec sa
     refine ⟨fun _ hp => by simp [plainWritten] at hp, fun q hw => ?_, fun hw _ _ => ?_,
       fun _ _ hc => by cases hc⟩
     · cases out <;> simp only [wrappedWritten, Option.some.injEq, reduceCtorEq] at hw
       subst hw
-      obtain ⟨a, b, c, -⟩ := p2 _ hout.symm
+      obtain ⟨a, b, c, -⟩ := p2 _ _ _ hout.symm
       exact ⟨by rw [← hsend]; exact a, b, by rw [hs']; exact c⟩
-    · rw [hs', p3 (fun q hq => by rw [← hout] at hq; rw [hq] at hw; simp [wrappedWritten] at hw), hsend]
+    · rw [hs', (p3 (fun q ek es hq => by rw [← hout] at hq; rw [hq] at hw; simp [wrappedWritten] at hw)).1, hsend]
   | poke t v =>
     refine ⟨fun _ hp => by simp [plainWritten] at hp, fun _ hw => by simp [wrappedWritten] at hw,
       fun _ _ hp => by simp [isPoke] at hp, fun _ _ hc => by cases hc⟩
@@ -367,15 +367,24 @@ theorem exhausted_counter_errors (s s' : State) (t svc aux : Nat) (out : TxOut)
     out = .errIpsec ∧ s'.seqSend = s.seqSend ∧ s'.initialized = true := by
   obtain ⟨sa, hadv, hout, hs'⟩ := step_cases h
   obtain ⟨-, -, -, -, -, hin, -, -, hsend⟩ := advance_fields hadv
-  obtain ⟨-, -, p3, -, p5, p6⟩ := send_spec sa svc
+  obtain ⟨-, -, p3, -, p5, p6, -⟩ := send_spec sa svc
   have he := p6 (by rw [hin]; exact hi) (by rw [hsend]; exact hx)
   refine ⟨by rw [hout, he], ?_, by rw [hs', p5, hin]; exact hi⟩
-  rw [hs', p3 (fun q hq => by rw [he] at hq; cases hq), hsend]
+  rw [hs', p3 (fun q ek es hq => by rw [he] at hq; cases hq), hsend]
 
 /-- Same for `stop()`: no wrapped CLOSE with a wrapped-around number. -/
 theorem exhausted_counter_stop (s s' : State) (t : Nat) (out : TxOut)
-    (h : step? s (.stop t out) = some s') : ∀ q, out = .wrapped q → q < seqLimit :=
-  fun q hq => ((write_step s s' _ h).2.1 q (by simp [wrappedWritten, hq])).2.1
+    (h : step? s (.stop t out) = some s') : ∀ q ek es, out = .wrapped q ek es → q < seqLimit :=
+  fun q ek es hq => ((write_step s s' _ h).2.1 q (by simp [wrappedWritten, hq])).2.1
+
+/-- `stop()` always tears the session down: whatever the counter, afterwards the session is not initialized and
+no exception left `stop()` — so a following `connect()` starts from an uninitialized session and a fresh key
+agreement (before the `fix:` the exhausted counter made `stop()` raise and the old key lived on). -/
+theorem stop_always_tears_down (s s' : State) (t : Nat) (out : TxOut) (h : step? s (.stop t out) = some s') :
+    s'.initialized = false ∧ out ≠ .errIpsec := by
+  obtain ⟨sa, -, hout, hs'⟩ := step_cases h
+  rw [hs', hout]
+  exact stop_tears_down sa
 
 /-- The session becomes initialized only through the handshake: a SessionResponse was forwarded to the pending
 `connect()` (so the session was uninitialized then), its MAC verified if a device authentication code is
@@ -383,26 +392,26 @@ configured, and the observation is the wrapped SessionAuthenticate with the numb
 `connect()`) and the session id of that response. -/
 theorem initialized_only_by_handshake (s s' : State) (o : Obs) (h : step? s o = some s')
     (h0 : s.initialized = false) (h1 : s'.initialized = true) :
-    ∃ t seq aux sid mac, o = .aw t seq sessionAuthenticate aux true sid ∧ s.resp = some (sid, mac) ∧
+    ∃ t seq aux sid mac ek es, o = .aw t seq sessionAuthenticate aux true sid ek es ∧ s.resp = some (sid, mac, es) ∧
       s.connecting = true ∧ (s.dap = true → mac = true) ∧ seq = s.seqSend ∧ s'.sessionId = sid := by
   obtain ⟨sa, hadv, hm⟩ := step_cases h
   obtain ⟨-, -, hcon, hresp, hdap, hin, -, -, hsend⟩ := advance_fields hadv
   rw [← hin] at h0
   cases o with
-  | aw t seq svc aux ok sid =>
-    obtain ⟨a, b, -, -, -, -, hor⟩ := autoWrite_spec hm
-    rcases hor with ⟨c1, -, c3, c4, rmac, c5, c6⟩ | ⟨-, c2, -⟩
-    · refine ⟨t, seq, aux, sid, rmac, by rw [c1, a], by rw [← hresp]; exact c5, by rw [← hcon]; exact c3,
+  | aw t seq svc aux ok sid ek es =>
+    obtain ⟨a, b, -, -, -, -, -, -, -, -, hor⟩ := autoWrite_spec hm
+    rcases hor with ⟨c1, -, c3, -, c4, -, -, rmac, c5, c6⟩ | ⟨-, c2, -⟩
+    · refine ⟨t, seq, aux, sid, rmac, ek, es, by rw [c1, a], by rw [← hresp]; exact c5, by rw [← hcon]; exact c3,
         fun hd => c6 (by rw [hdap]; exact hd), by rw [← hsend]; exact b, c4⟩
     · rw [h0] at c2; cases c2
   | conn t dap => rw [hm.2] at h1; simp only at h1; rw [h0] at h1; cases h1
-  | rxr t sid macOk out => rw [hm.2, (plain_rule sa sid 0 macOk).2.2.2.2.2, h0] at h1; cases h1
+  | rxr t sid macOk es out => rw [hm.2, (plain_rule sa sid 0 macOk es).2.2.2.2.2, h0] at h1; cases h1
   | rxp t svc out => rw [hm.2.2.2, h0] at h1; cases h1
-  | rxw t sid seq macOk inner out =>
-    rw [hm.2, wrapped_before_handshake sa sid seq macOk inner h0, h0] at h1; cases h1
-  | ap t svc => rw [hm.2.2.2.2, h0] at h1; cases h1
+  | rxw t sid seq macOk inner ek es out =>
+    rw [hm.2.2, wrapped_before_handshake sa sid seq macOk inner h0, h0] at h1; cases h1
+  | ap t svc kp => rw [hm.2.2.2.2.2] at h1; simp only at h1; rw [h0] at h1; cases h1
   | snd t svc aux out => rw [hm.2, (send_spec sa svc).2.2.2.2.1, h0] at h1; cases h1
-  | stop t out => have := (stop_spec sa).2.2.2.2 (by rw [← hm.2]; exact h1); rw [h0] at this; cases this
+  | stop t out => have := (stop_spec sa).2.2.2.2.1 (by rw [← hm.2]; exact h1); rw [h0] at this; cases this
   | poke t v => rw [hm.2.2, h0] at h1; cases h1
   | cres t ok => rw [hm] at h1; simp only at h1; rw [h0] at h1; cases h1
   | st t i r q => rw [hm.2.2.2, h0] at h1; cases h1
@@ -411,22 +420,525 @@ theorem initialized_only_by_handshake (s s' : State) (o : Obs) (h : step? s o = 
 
 /-- a complete little session: handshake, one genuine frame, a replay and a forged one dropped, a nested wrapper
 dropped, a request, the keepalive 50 s later, close on stop -/
-example : accepts [.conn 0 true, .ap 0 sessionRequest, .rxr 0 7 true .fwd, .aw 0 0 sessionAuthenticate 0 true 7,
-    .rxw 0 7 0 true (.svc sessionStatus) .fwd, .cres 0 true, .st 0 true 0 1,
-    .rxw 5 7 0 true (.svc 0x0421) .drop, .rxw 5 7 1 false (.svc 0x0421) .drop, .rxw 5 7 1 true (.svc secureWrapper) .drop,
-    .rxw 5 7 1 true (.svc 0x0421) .fwd, .rxp 6 0x0421 .drop, .snd 10 0x0420 0 (.wrapped 1),
-    .aw 50010 2 sessionStatus statusKeepalive true 7, .stop 50020 (.wrapped 3), .st 50020 false 1 4] := by decide
+example : accepts [.conn 0 true, .ap 0 sessionRequest 0, .rxr 0 7 true 0 .fwd, .aw 0 0 sessionAuthenticate 0 true 7 0 0,
+    .rxw 0 7 0 true (.svc sessionStatus) 0 0 .fwd, .cres 0 true, .st 0 true 0 1,
+    .rxw 5 7 0 true (.svc 0x0421) 0 0 .drop, .rxw 5 7 1 false (.svc 0x0421) 0 0 .drop,
+    .rxw 5 7 1 true (.svc secureWrapper) 0 0 .drop,
+    .rxw 5 7 1 true (.svc 0x0421) 0 0 .fwd, .rxp 6 0x0421 .drop, .snd 10 0x0420 0 (.wrapped 1 0 0),
+    .aw 50010 2 sessionStatus statusKeepalive true 7 0 0, .stop 50020 (.wrapped 3 0 0), .st 50020 false 1 4,
+    -- second session on the same object: fresh key pair (id 1); a frame recorded in the first session does not verify
+    .conn 50030 true, .ap 50030 sessionRequest 1, .rxr 50030 7 true 0 .fwd, .aw 50030 0 sessionAuthenticate 0 true 7 1 0,
+    .rxw 50040 7 1 false (.svc 0x0421) 0 0 .drop, .rxw 50040 7 0 true (.svc sessionStatus) 1 0 .fwd] := by decide
 /-- a replayed wrapper that is passed on is not an accepted trace -/
-example : ¬ accepts [.conn 0 true, .ap 0 sessionRequest, .rxr 0 7 true .fwd, .aw 0 0 sessionAuthenticate 0 true 7,
-    .rxw 0 7 0 true (.svc sessionStatus) .fwd, .rxw 5 7 0 true (.svc 0x0421) .fwd] := by decide
+example : ¬ accepts [.conn 0 true, .ap 0 sessionRequest 0, .rxr 0 7 true 0 .fwd, .aw 0 0 sessionAuthenticate 0 true 7 0 0,
+    .rxw 0 7 0 true (.svc sessionStatus) 0 0 .fwd, .rxw 5 7 0 true (.svc 0x0421) 0 0 .fwd] := by decide
 /-- a plain frame written after the handshake is not an accepted trace -/
-example : ¬ accepts [.conn 0 true, .ap 0 sessionRequest, .rxr 0 7 true .fwd, .aw 0 0 sessionAuthenticate 0 true 7,
+example : ¬ accepts [.conn 0 true, .ap 0 sessionRequest 0, .rxr 0 7 true 0 .fwd, .aw 0 0 sessionAuthenticate 0 true 7 0 0,
     .snd 1 0x0420 0 .plain] := by decide
 /-- the counter at 2^48: IPSecureError, nothing written -/
-example : accepts [.conn 0 false, .ap 0 sessionRequest, .rxr 0 7 false .fwd, .aw 0 0 sessionAuthenticate 0 true 7,
-    .poke 1 281474976710655, .snd 1 0x0420 0 (.wrapped 281474976710655), .snd 1 0x0420 0 .errIpsec,
+example : accepts [.conn 0 false, .ap 0 sessionRequest 0, .rxr 0 7 false 0 .fwd, .aw 0 0 sessionAuthenticate 0 true 7 0 0,
+    .poke 1 281474976710655, .snd 1 0x0420 0 (.wrapped 281474976710655 0 0), .snd 1 0x0420 0 .errIpsec,
     .st 1 true (-1) 281474976710656] := by decide
 example : ∃ s, s.initialized = true ∧ rxWrapped s 7 5 true (.svc 0x0421) = (.fwd, { s with seqRecv := 5 }) :=
   ⟨{ initialized := true, sessionId := 7, seqRecv := 4 }, rfl, by decide⟩
+
+/-! ### (5) key epochs: a frame is forwarded only if it was wrapped for THIS session -/
+
+/-- the key-pair id a plain SessionRequest carried -/
+def keyId : Obs → Option Nat
+  | .ap _ _ kp => some kp
+  | _ => none
+
+/-- the (client key id, server key id, sequence number) a written wrapper was made under -/
+def writtenPair : Obs → Option (Nat × Nat × Nat)
+  | .aw _ seq _ _ _ _ ek es => some (ek, es, seq)
+  | .snd _ _ _ (.wrapped seq ek es) => some (ek, es, seq)
+  | .stop _ (.wrapped seq ek es) => some (ek, es, seq)
+  | _ => none
+
+theorem rxResponse_epoch (s : State) (sid : Nat) (m : Bool) (es : Nat) :
+    (rxResponse s sid m es).2.initialized = s.initialized ∧ (rxResponse s sid m es).2.keyEp = s.keyEp ∧
+    (rxResponse s sid m es).2.nKeys = s.nKeys ∧ (rxResponse s sid m es).2.kp = s.kp ∧
+    (rxResponse s sid m es).2.requested = s.requested := by
+  unfold rxResponse
+  by_cases h1 : s.initialized = true <;> by_cases h2 : s.connecting = true <;> simp [h1, h2]
+
+/-- Reachable states: the session key in use belongs to the key pair of the latest SessionRequest. -/
+def EpochInv (s : State) : Prop :=
+  (s.initialized = true → s.keyEp.1 = s.kp) ∧ (s.kp + 1 = s.nKeys ∨ s.nKeys = 0)
+
+theorem epoch_step (s s' : State) (o : Obs) (hi : EpochInv s) (h : step? s o = some s') :
+    EpochInv s' ∧ (∀ kp, keyId o = some kp → kp = s.nKeys ∧ s'.nKeys = s.nKeys + 1) ∧
+    (keyId o = none → s'.nKeys = s.nKeys) := by
+  obtain ⟨sa, hadv, hm⟩ := step_cases h
+  obtain ⟨-, -, -, -, -, hin, -, -, -⟩ := advance_fields hadv
+  obtain ⟨hkp, hnk, hke, -, -⟩ := advance_epoch hadv
+  have hia : EpochInv sa := by unfold EpochInv at hi ⊢; rw [hin, hkp, hnk, hke]; exact hi
+  rw [← hnk]
+  cases o with
+  | conn t dap =>
+    rw [hm.2]
+    exact ⟨hia, fun _ hk => by simp [keyId] at hk, fun _ => rfl⟩
+  | rxr t sid macOk es out =>
+    rw [hm.2]
+    obtain ⟨r1, r2, r3, r4, -⟩ := rxResponse_epoch sa sid macOk es
+    refine ⟨?_, fun _ hk => by simp [keyId] at hk, fun _ => r3⟩
+    unfold EpochInv at hia ⊢
+    rw [r1, r2, r3, r4]; exact hia
+  | rxp t svc out =>
+    rw [hm.2.2.2]
+    exact ⟨hia, fun _ hk => by simp [keyId] at hk, fun _ => rfl⟩
+  | rxw t sid seq macOk inner ek es out =>
+    rw [hm.2.2]
+    by_cases hf : (rxWrapped sa sid seq macOk inner).1 = .fwd
+    · have := (wrapped_forward_sound sa (rxWrapped sa sid seq macOk inner).2 sid seq macOk inner (by rw [← hf])).2.2.2.2.2
+      rw [this]
+      exact ⟨hia, fun _ hk => by simp [keyId] at hk, fun _ => rfl⟩
+    · rw [wrapped_reject_keeps_state sa sid seq macOk inner hf]
+      exact ⟨hia, fun _ hk => by simp [keyId] at hk, fun _ => rfl⟩
+  | ap t svc kp =>
+    obtain ⟨a, -, -, -, e, rfl⟩ := hm
+    refine ⟨⟨fun hi' => (by simp only at hi'; rw [a] at hi'; cases hi'), Or.inl (by simp only; omega)⟩,
+      fun kp' hk => ?_, fun hk => by simp [keyId] at hk⟩
+    simp only [keyId, Option.some.injEq] at hk
+    subst hk
+    exact ⟨e, rfl⟩
+  | aw t seq svc aux ok sid ek es =>
+    obtain ⟨-, -, -, -, -, a, b, c, d, -, hor⟩ := autoWrite_spec hm
+    refine ⟨⟨fun _ => ?_, by rw [c, d]; exact hia.2⟩, fun _ hk => by simp [keyId] at hk, fun _ => d⟩
+    rcases hor with ⟨-, -, -, -, -, e1, -, -⟩ | ⟨-, e2, -, e3, -⟩
+    · rw [← b, c]; exact e1
+    · rw [e3, c]; exact hia.1 e2
+  | snd t svc aux out =>
+    rw [hm.2]
+    obtain ⟨-, -, -, -, p5, -, p7, p8, p9, -, -⟩ := send_spec sa svc
+    refine ⟨⟨fun hi' => ?_, by rw [p7, p8]; exact hia.2⟩, fun _ hk => by simp [keyId] at hk, fun _ => p8⟩
+    rw [p9, p7]; exact hia.1 (by rw [← p5]; exact hi')
+  | stop t out =>
+    rw [hm.2]
+    obtain ⟨-, -, -, -, p5, p7, p8, p9, -⟩ := stop_spec sa
+    refine ⟨⟨fun hi' => ?_, by rw [p7, p8]; exact hia.2⟩, fun _ hk => by simp [keyId] at hk, fun _ => p8⟩
+    rw [p9, p7]; exact hia.1 (p5 hi')
+  | poke t v =>
+    have hk : s'.kp = sa.kp ∧ s'.nKeys = sa.nKeys ∧ s'.keyEp = sa.keyEp := by
+      have := h; unfold step? at this; simp only [hadv] at this
+      simp only [Option.some.injEq] at this; subst this; exact ⟨rfl, rfl, rfl⟩
+    refine ⟨⟨fun hi' => ?_, by rw [hk.1, hk.2.1]; exact hia.2⟩, fun _ hk' => by simp [keyId] at hk', fun _ => hk.2.1⟩
+    rw [hk.2.2, hk.1]; exact hia.1 (by rw [← hm.2.2]; exact hi')
+  | cres t ok =>
+    rw [hm]
+    exact ⟨hia, fun _ hk => by simp [keyId] at hk, fun _ => rfl⟩
+  | st t i r q =>
+    rw [hm.2.2.2]
+    exact ⟨hia, fun _ hk => by simp [keyId] at hk, fun _ => rfl⟩
+
+theorem epochInv_init : EpochInv init := by simp [EpochInv, init]
+
+/-- Over ANY accepted trace the key pairs announced in the plain SessionRequests carry consecutive fresh ids:
+the public key sent by each `connect()` differs from all earlier ones of the object. -/
+theorem session_request_keys_fresh (tr : List Obs) (s s' : State) (hi : EpochInv s) (h : runFrom s tr = some s') :
+    tr.filterMap keyId = List.range' s.nKeys (tr.filterMap keyId).length ∧
+    s'.nKeys = s.nKeys + (tr.filterMap keyId).length ∧ EpochInv s' := by
+  induction tr generalizing s with
+  | nil =>
+    simp only [runFrom, Option.some.injEq] at h; subst h
+    simp [hi]
+  | cons o os ih =>
+    obtain ⟨s1, h1, h2⟩ := runFrom_cons h
+    obtain ⟨hi1, e1, e2⟩ := epoch_step s s1 o hi h1
+    obtain ⟨ih1, ih2, ih3⟩ := ih s1 hi1 h2
+    cases hk : keyId o with
+    | none =>
+      rw [e2 hk] at ih1 ih2
+      simp only [List.filterMap_cons, hk]
+      exact ⟨ih1, ih2, ih3⟩
+    | some kp =>
+      obtain ⟨a, b⟩ := e1 kp hk
+      rw [b] at ih1 ih2
+      simp only [List.filterMap_cons, hk, List.length_cons, List.range'_succ]
+      exact ⟨by rw [a, ← ih1], by omega, ih3⟩
+
+/-- **Forwarded ⇒ wrapped under the current key epoch.**  In any accepted trace from the initial state, a
+wrapped frame that is passed on was wrapped under the session key of the running session, and that key belongs to
+the key pair announced in the LATEST SessionRequest (`ek + 1 = number of key pairs so far`), i.e. to a key pair
+that no earlier session of this object used: a frame recorded in an earlier session (`ek` smaller) is never
+forwarded by a later one. -/
+theorem forwarded_only_current_session (pre : List Obs) (s s' : State) (t sid seq ek es : Nat) (macOk : Bool)
+    (inner : Inner) (hpre : runFrom init pre = some s)
+    (h : step? s (.rxw t sid seq macOk inner ek es .fwd) = some s') :
+    (ek, es) = s.keyEp ∧ ek = s.kp ∧ ek + 1 = s.nKeys ∧ ∀ k ∈ pre.filterMap keyId, k ≤ ek := by
+  obtain ⟨hfr, hn, hi⟩ := session_request_keys_fresh pre init s epochInv_init hpre
+  obtain ⟨sa, hadv, hmk, hout, -⟩ := step_cases h
+  obtain ⟨-, -, -, -, -, hin, -, -, -⟩ := advance_fields hadv
+  obtain ⟨hkp, hnk, hke, -, -⟩ := advance_epoch hadv
+  obtain ⟨hini, hmac, -⟩ := wrapped_forward_sound sa (rxWrapped sa sid seq macOk inner).2 sid seq macOk inner
+    (by rw [hout])
+  have hep : (ek, es) = s.keyEp := by rw [← hke]; exact hmk hmac
+  have hek : ek = s.kp := by
+    have := hi.1 (by rw [← hin]; exact hini)
+    rw [← hep] at this; exact this
+  have hnz : s.nKeys ≠ 0 ∨ True := Or.inr trivial
+  have hk1 : ek + 1 = s.nKeys := by
+    rcases hi.2 with h1 | h0
+    · omega
+    · -- no key pair yet: the session cannot be initialized (shown through the handshake invariant below)
+      exfalso
+      -- initialized needs a handshake, which needs a SessionRequest: nKeys > 0
+      have : ∀ (tr : List Obs) (a b : State), runFrom a tr = some b → (a.initialized = true → a.nKeys ≠ 0) →
+          (a.requested = true → a.nKeys ≠ 0) → (b.initialized = true → b.nKeys ≠ 0) ∧ (b.requested = true → b.nKeys ≠ 0) := by
+        intro tr
+        induction tr with
+        | nil => intro a b hr h1 h2; simp only [runFrom, Option.some.injEq] at hr; subst hr; exact ⟨h1, h2⟩
+        | cons o os ih =>
+          intro a b hr h1 h2
+          obtain ⟨a1, ha1, ha2⟩ := runFrom_cons hr
+          apply ih a1 b ha2
+          · intro hi1
+            by_cases hai : a.initialized = true
+            · have := h1 hai
+              obtain ⟨sa', hadv', hm'⟩ := step_cases ha1
+              have hnk' := (advance_epoch hadv').2.1
+              cases o with
+              | ap _ _ _ => rw [hm'.2.2.2.2.2]; simp
+              | aw t seq svc aux ok sid ek es => rw [(autoWrite_spec hm').2.2.2.2.2.2.2.2.1, hnk']; exact this
+              | conn _ _ => rw [hm'.2]; simpa [hnk'] using this
+              | rxr _ sid m es _ =>
+                rw [hm'.2, (rxResponse_epoch sa' sid m es).2.2.1, hnk']; exact this
+              | rxp _ _ _ => rw [hm'.2.2.2, hnk']; exact this
+              | rxw _ sid seq m inner _ _ _ =>
+                rw [hm'.2.2]
+                by_cases hf : (rxWrapped sa' sid seq m inner).1 = .fwd
+                · rw [(wrapped_forward_sound sa' (rxWrapped sa' sid seq m inner).2 sid seq m inner (by rw [← hf])).2.2.2.2.2]
+                  simpa [hnk'] using this
+                · rw [wrapped_reject_keeps_state sa' sid seq m inner hf, hnk']; exact this
+              | snd _ svc _ _ => rw [hm'.2, (send_spec sa' svc).2.2.2.2.2.2.2.1, hnk']; exact this
+              | stop _ _ => rw [hm'.2, (stop_spec sa').2.2.2.2.2.2.1, hnk']; exact this
+              | poke _ _ =>
+                have := ha1; unfold step? at this; simp only [hadv'] at this
+                simp only [Option.some.injEq] at this; subst this; simpa [hnk'] using h1 hai
+              | cres _ _ => rw [hm']; simpa [hnk'] using this
+              | st _ _ _ _ => rw [hm'.2.2.2, hnk']; exact this
+            · have hai' : a.initialized = false := by simpa using hai
+              obtain ⟨t', seq', aux', sid', mac', ek', es', ho, -⟩ := initialized_only_by_handshake a a1 o ha1 hai' hi1
+              subst ho
+              obtain ⟨sa', hadv', hm'⟩ := step_cases ha1
+              obtain ⟨-, -, -, -, -, -, -, -, d, -, hor⟩ := autoWrite_spec hm'
+              rcases hor with ⟨-, -, -, r, -⟩ | ⟨-, e2, -⟩
+              · rw [d, (advance_epoch hadv').2.1]
+                exact h2 (by rw [← (advance_epoch hadv').2.2.2.1]; exact r)
+              · rw [(advance_fields hadv').2.2.2.2.2.1, hai'] at e2; cases e2
+          · intro hr1
+            obtain ⟨sa', hadv', hm'⟩ := step_cases ha1
+            have hnk' := (advance_epoch hadv').2.1
+            have hrq' := (advance_epoch hadv').2.2.2.1
+            cases o with
+            | ap _ _ _ => rw [hm'.2.2.2.2.2]; simp
+            | aw t seq svc aux ok sid ek es =>
+              obtain ⟨-, -, -, -, -, -, -, -, d, -, hor⟩ := autoWrite_spec hm'
+              rcases hor with ⟨-, -, -, -, -, -, r, -⟩ | ⟨-, -, -, -, r⟩
+              · rw [r] at hr1; cases hr1
+              · rw [d, hnk']; exact h2 (by rw [← hrq', ← r]; exact hr1)
+            | conn _ _ => rw [hm'.2] at hr1; simp at hr1
+            | rxr _ sid m es _ =>
+              rw [hm'.2] at hr1 ⊢
+              rw [(rxResponse_epoch sa' sid m es).2.2.2.2] at hr1
+              rw [(rxResponse_epoch sa' sid m es).2.2.1, hnk']; exact h2 (by rw [← hrq']; exact hr1)
+            | rxp _ _ _ => rw [hm'.2.2.2] at hr1 ⊢; rw [hnk']; exact h2 (by rw [← hrq']; exact hr1)
+            | rxw _ sid seq m inner _ _ _ =>
+              rw [hm'.2.2] at hr1 ⊢
+              by_cases hf : (rxWrapped sa' sid seq m inner).1 = .fwd
+              · rw [(wrapped_forward_sound sa' (rxWrapped sa' sid seq m inner).2 sid seq m inner (by rw [← hf])).2.2.2.2.2] at hr1 ⊢
+                simp only at hr1 ⊢; rw [hnk']; exact h2 (by rw [← hrq']; exact hr1)
+              · rw [wrapped_reject_keeps_state sa' sid seq m inner hf] at hr1 ⊢
+                rw [hnk']; exact h2 (by rw [← hrq']; exact hr1)
+            | snd _ svc _ _ =>
+              rw [hm'.2] at hr1 ⊢
+              obtain ⟨-, -, -, -, -, -, -, p8, -, p10, -⟩ := send_spec sa' svc
+              rw [p8, hnk']; exact h2 (by rw [← hrq', ← p10]; exact hr1)
+            | stop _ _ =>
+              rw [hm'.2] at hr1 ⊢
+              obtain ⟨-, p2, p3, -, -, -, p8, -⟩ := stop_spec sa'
+              rw [p8, hnk']
+              by_cases hw : ∃ q ek es, (stop sa').1 = .wrapped q ek es
+              · obtain ⟨q, ek, es, hq⟩ := hw
+                have := (p2 q ek es hq).2.2.2.2.2.2
+                rw [this] at hr1; cases hr1
+              · have hw' : ∀ q ek es, (stop sa').1 ≠ .wrapped q ek es := fun q ek es hq => hw ⟨q, ek, es, hq⟩
+                obtain ⟨-, k1, k2⟩ := p3 hw'
+                by_cases hsi : (stop sa').2.initialized = true
+                · rw [k1 hsi] at hr1; exact h2 (by rw [← hrq']; exact hr1)
+                · rw [k2 (by simpa using hsi)] at hr1; cases hr1
+            | poke _ _ =>
+              have := ha1; unfold step? at this; simp only [hadv'] at this
+              simp only [Option.some.injEq] at this; subst this
+              simp only at hr1 ⊢; rw [hnk']; exact h2 (by rw [← hrq']; exact hr1)
+            | cres _ _ => rw [hm'] at hr1; simp at hr1
+            | st _ _ _ _ => rw [hm'.2.2.2] at hr1 ⊢; rw [hnk']; exact h2 (by rw [← hrq']; exact hr1)
+      have := (this pre init s hpre (by simp [init]) (by simp [init])).1 (by rw [← hin]; exact hini)
+      exact this h0
+  refine ⟨hep, hek, hk1, fun k hk => ?_⟩
+  rw [hfr] at hk
+  have := List.mem_range'_1.mp hk
+  simp only [init] at this hn
+  omega
+
+/-! ### (6) outgoing wrappers never repeat a (session key, sequence number) pair -/
+
+/-- Invariant tying the wrappers written so far (`hist`: client key id, server key id, sequence number) to the state. -/
+def WInv (s : State) (hist : List (Nat × Nat × Nat)) : Prop :=
+  (∀ p ∈ hist, p.1 ≤ s.kp) ∧
+  (s.initialized = true → s.keyEp.1 = s.kp ∧ ∀ p ∈ hist, p.1 = s.kp → p.2.2 < s.seqSend) ∧
+  (s.initialized = false → s.requested = true → ∀ p ∈ hist, p.1 < s.kp) ∧
+  hist.Nodup ∧ s.keyReuse = false ∧
+  (s.kp + 1 = s.nKeys ∨ (s.nKeys = 0 ∧ hist = [] ∧ s.initialized = false ∧ s.requested = false))
+
+theorem winv_same (s s' : State) (hist : List (Nat × Nat × Nat)) (h : WInv s hist)
+    (e1 : s'.kp = s.kp) (e2 : s'.initialized = s.initialized) (e3 : s'.keyEp = s.keyEp) (e4 : s'.seqSend = s.seqSend)
+    (e5 : s'.requested = true → s.requested = true) (e6 : s'.keyReuse = s.keyReuse) (e7 : s'.nKeys = s.nKeys) :
+    WInv s' hist := by
+  obtain ⟨a, b, c, d, e, f⟩ := h
+  refine ⟨by rw [e1]; exact a, by rw [e2, e3, e1, e4]; exact b, ?_, d, by rw [e6]; exact e, ?_⟩
+  · intro hi hr; rw [e1]; exact c (by rw [← e2]; exact hi) (e5 hr)
+  · rw [e1, e7, e2]
+    rcases f with f | ⟨f1, f2, f3, f4⟩
+    · exact Or.inl f
+    · refine Or.inr ⟨f1, f2, f3, ?_⟩
+      cases hr : s'.requested with
+      | false => rfl
+      | true => rw [e5 hr] at f4; cases f4
+
+/-- appending the wrapper written under the current key with the current counter -/
+theorem winv_write (s s' : State) (hist : List (Nat × Nat × Nat)) (h : WInv s hist) (hi : s.initialized = true)
+    (e1 : s'.kp = s.kp) (e3 : s'.keyEp = s.keyEp) (e4 : s'.seqSend = s.seqSend + 1)
+    (e5 : s'.initialized = false → s'.requested = false) (e6 : s'.keyReuse = s.keyReuse) (e7 : s'.nKeys = s.nKeys) :
+    WInv s' (hist ++ [(s.keyEp.1, s.keyEp.2, s.seqSend)]) := by
+  obtain ⟨a, b, c, d, e, f⟩ := h
+  obtain ⟨b1, b2⟩ := b hi
+  refine ⟨?_, ?_, ?_, ?_, by rw [e6]; exact e, ?_⟩
+  · intro p hp
+    rw [e1]
+    rcases List.mem_append.mp hp with hp | hp
+    · exact a p hp
+    · simp only [List.mem_singleton] at hp; subst hp; simp only; omega
+  · intro _
+    rw [e3, e1, e4]
+    refine ⟨b1, fun p hp hk => ?_⟩
+    rcases List.mem_append.mp hp with hp | hp
+    · have := b2 p hp hk; omega
+    · simp only [List.mem_singleton] at hp; subst hp; simp only; omega
+  · intro hi' hr'; rw [e5 hi'] at hr'; cases hr'
+  · rw [List.nodup_append]
+    refine ⟨d, by simp, fun x hx y hy => ?_⟩
+    simp only [List.mem_singleton] at hy
+    subst hy
+    intro hxy
+    subst hxy
+    have := b2 _ hx (by simp only; exact b1)
+    simp only at this; omega
+  · rw [e1, e7]
+    rcases f with f | ⟨-, -, f3, -⟩
+    · exact Or.inl f
+    · rw [hi] at f3; cases f3
+
+theorem winv_step (s s' : State) (o : Obs) (hist : List (Nat × Nat × Nat)) (h : WInv s hist)
+    (hs : step? s o = some s') (hp : isPoke o = false) (hk : s'.keyReuse = false) :
+    WInv s' (hist ++ (writtenPair o).toList) := by
+  obtain ⟨sa, hadv, hm⟩ := step_cases hs
+  obtain ⟨-, -, -, -, -, hin, -, -, hsend⟩ := advance_fields hadv
+  obtain ⟨hkp, hnk, hke, hrq, hkr⟩ := advance_epoch hadv
+  have ha : WInv sa hist := winv_same s sa hist h hkp hin hke hsend (fun hr => by rw [← hrq]; exact hr) hkr hnk
+  cases o with
+  | conn t dap =>
+    obtain ⟨-, rfl⟩ := hm
+    simp only [writtenPair, Option.toList, List.append_nil]
+    simp only [Bool.or_eq_false_iff] at hk
+    obtain ⟨a, b, c, d, e, f⟩ := ha
+    refine ⟨a, ?_, ?_, d, ?_, ?_⟩
+    · intro hi; simp only at hi; rw [hk.2] at hi; cases hi
+    · intro _ hr; simp at hr
+    · simp [hk.1, hk.2]
+    · rcases f with f | ⟨f1, f2, f3, -⟩
+      · exact Or.inl f
+      · exact Or.inr ⟨f1, f2, f3, rfl⟩
+  | rxr t sid macOk es out =>
+    rw [hm.2]
+    obtain ⟨r1, r2, r3, r4, r5⟩ := rxResponse_epoch sa sid macOk es
+    simp only [writtenPair, Option.toList, List.append_nil]
+    exact winv_same sa _ hist ha r4 r1 r2 (plain_rule sa sid 0 macOk es).2.2.2.2.1 (fun hr => by rw [← r5]; exact hr)
+      (by unfold rxResponse; by_cases h1 : sa.initialized = true <;> by_cases h2 : sa.connecting = true <;> simp [h1, h2]) r3
+  | rxp t svc out =>
+    rw [hm.2.2.2]
+    simpa [writtenPair] using ha
+  | rxw t sid seq macOk inner ek es out =>
+    rw [hm.2.2]
+    simp only [writtenPair, Option.toList, List.append_nil]
+    by_cases hf : (rxWrapped sa sid seq macOk inner).1 = .fwd
+    · rw [(wrapped_forward_sound sa (rxWrapped sa sid seq macOk inner).2 sid seq macOk inner (by rw [← hf])).2.2.2.2.2]
+      exact winv_same sa _ hist ha rfl rfl rfl rfl (fun hr => hr) rfl rfl
+    · rw [wrapped_reject_keeps_state sa sid seq macOk inner hf]; exact ha
+  | ap t svc kp =>
+    obtain ⟨i0, -, -, -, e, rfl⟩ := hm
+    simp only [writtenPair, Option.toList, List.append_nil]
+    obtain ⟨a, b, c, d, e', f⟩ := ha
+    refine ⟨?_, ?_, ?_, d, e', Or.inl (by simp only; omega)⟩
+    · intro p hp'
+      have := a p hp'
+      simp only
+      rcases f with f | ⟨-, f2, -, -⟩
+      · omega
+      · rw [f2] at hp'; cases hp'
+    · intro hi; simp only at hi; rw [i0] at hi; cases hi
+    · intro _ _ p hp'
+      have := a p hp'
+      simp only
+      rcases f with f | ⟨-, f2, -, -⟩
+      · omega
+      · rw [f2] at hp'; cases hp'
+  | aw t seq svc aux ok sid ek es =>
+    obtain ⟨-, q1, -, q2, -, q3, q4, q5, q6, q7, hor⟩ := autoWrite_spec hm
+    simp only [writtenPair, Option.toList]
+    rcases hor with ⟨-, i0, -, rq, -, ek1, rq', -⟩ | ⟨-, i1, -, ke, rq'⟩
+    · -- handshake: first wrapper under the fresh key pair
+      obtain ⟨a, b, c, d, e', f⟩ := ha
+      have hlt := c i0 rq
+      refine ⟨?_, ?_, ?_, ?_, ?_, ?_⟩
+      · intro p hp'
+        rw [q5]
+        rcases List.mem_append.mp hp' with hp' | hp'
+        · exact a p hp'
+        · simp only [List.mem_singleton] at hp'; subst hp'; simp only; omega
+      · intro _
+        rw [← q4, q5, q2]
+        refine ⟨ek1, fun p hp' hkk => ?_⟩
+        rcases List.mem_append.mp hp' with hp' | hp'
+        · have := hlt p hp'; omega
+        · simp only [List.mem_singleton] at hp'; subst hp'; simp only; omega
+      · intro hi; rw [q3] at hi; cases hi
+      · rw [List.nodup_append]
+        refine ⟨d, by simp, fun x hx y hy => ?_⟩
+        simp only [List.mem_singleton] at hy
+        subst hy
+        intro hxy; subst hxy
+        have := hlt _ hx; simp only at this; omega
+      · rw [q7]; exact e'
+      · rw [q5, q6]
+        rcases f with f | ⟨-, -, -, f4⟩
+        · exact Or.inl f
+        · rw [rq] at f4; cases f4
+    · have hw := winv_write sa s' hist ha i1 q5 ke (by rw [q2, q1]) (fun hi => by rw [q3] at hi; cases hi) q7 q6
+      have e : (ek, es, seq) = (sa.keyEp.1, sa.keyEp.2, sa.seqSend) := by
+        rw [← ke, ← q4, q1]
+      rw [e]; exact hw
+  | snd t svc aux out =>
+    obtain ⟨hout, rfl⟩ := hm
+    obtain ⟨-, p2, p3, -, p5, -, p7, p8, p9, p10, p11⟩ := send_spec sa svc
+    cases out with
+    | wrapped q ek es =>
+      obtain ⟨a1, -, a3, a4, a5⟩ := p2 q ek es hout.symm
+      simp only [writtenPair, Option.toList]
+      have hw := winv_write sa _ hist ha a4 p7 p9 (by rw [a3, a1]) (fun hi => by rw [p5, a4] at hi; cases hi) p11 p8
+      have e : (ek, es, q) = (sa.keyEp.1, sa.keyEp.2, sa.seqSend) := by rw [← a5, a1]
+      rw [e]; exact hw
+    | plain | errIpsec | errComm | nothing =>
+      simp only [writtenPair, Option.toList, List.append_nil]
+      rw [p3 (fun q ek es hq => by rw [← hout] at hq; cases hq)]; exact ha
+  | stop t out =>
+    obtain ⟨hout, rfl⟩ := hm
+    obtain ⟨-, p2, p3, -, p5, p7, p8, p9, p11⟩ := stop_spec sa
+    cases out with
+    | wrapped q ek es =>
+      obtain ⟨a1, -, a3, a4, a5, a6, a7⟩ := p2 q ek es hout.symm
+      simp only [writtenPair, Option.toList]
+      have hw := winv_write sa _ hist ha a4 p7 p9 (by rw [a3, a1]) (fun _ => a7) p11 p8
+      have e : (ek, es, q) = (sa.keyEp.1, sa.keyEp.2, sa.seqSend) := by rw [← a5, a1]
+      rw [e]; exact hw
+    | plain | errIpsec | errComm | nothing =>
+      simp only [writtenPair, Option.toList, List.append_nil]
+      obtain ⟨k0, k1, k2⟩ := p3 (fun q ek es hq => by rw [← hout] at hq; cases hq)
+      by_cases hsi : (stop sa).2.initialized = true
+      · rw [k1 hsi]; exact ha
+      · have hsi' : (stop sa).2.initialized = false := by simpa using hsi
+        obtain ⟨a, b, c, d, e', f⟩ := ha
+        refine ⟨?_, ?_, ?_, d, ?_, ?_⟩
+        · rw [p7]; exact a
+        · intro hi; rw [hsi'] at hi; cases hi
+        · intro _ hr; rw [k2 hsi'] at hr; cases hr
+        · rw [p11]; exact e'
+        · rw [p7, p8]
+          rcases f with f | ⟨f1, f2, -, -⟩
+          · exact Or.inl f
+          · exact Or.inr ⟨f1, f2, hsi', k2 hsi'⟩
+  | poke t v => simp [isPoke] at hp
+  | cres t ok =>
+    rw [hm]
+    simp only [writtenPair, Option.toList, List.append_nil]
+    exact winv_same sa _ hist ha rfl rfl rfl rfl (fun hr => by simp at hr) rfl rfl
+  | st t i r q =>
+    rw [hm.2.2.2]
+    simpa [writtenPair] using ha
+
+theorem keyReuse_sticky (s s' : State) (o : Obs) (hs : step? s o = some s') (h : s'.keyReuse = false) :
+    s.keyReuse = false := by
+  obtain ⟨sa, hadv, hm⟩ := step_cases hs
+  obtain ⟨-, -, -, -, hkr⟩ := advance_epoch hadv
+  rw [← hkr]
+  cases o with
+  | conn t dap => rw [hm.2] at h; simp only [Bool.or_eq_false_iff] at h; exact h.1
+  | rxr t sid macOk es out =>
+    rw [hm.2] at h; unfold rxResponse at h
+    by_cases h1 : sa.initialized = true <;> by_cases h2 : sa.connecting = true <;> simp [h1, h2] at h <;> exact h
+  | rxp t svc out => rw [hm.2.2.2] at h; exact h
+  | rxw t sid seq macOk inner ek es out =>
+    rw [hm.2.2] at h
+    by_cases hf : (rxWrapped sa sid seq macOk inner).1 = .fwd
+    · rw [(wrapped_forward_sound sa (rxWrapped sa sid seq macOk inner).2 sid seq macOk inner (by rw [← hf])).2.2.2.2.2] at h
+      exact h
+    · rw [wrapped_reject_keeps_state sa sid seq macOk inner hf] at h; exact h
+  | ap t svc kp => rw [hm.2.2.2.2.2] at h; exact h
+  | aw t seq svc aux ok sid ek es => rw [(autoWrite_spec hm).2.2.2.2.2.2.2.2.2.1] at h; exact h
+  | snd t svc aux out => rw [hm.2, (send_spec sa svc).2.2.2.2.2.2.2.2.2.2] at h; exact h
+  | stop t out => rw [hm.2, (stop_spec sa).2.2.2.2.2.2.2.2] at h; exact h
+  | poke t v =>
+    have := hs; unfold step? at this; simp only [hadv] at this
+    simp only [Option.some.injEq] at this; subst this; exact h
+  | cres t ok => rw [hm] at h; exact h
+  | st t i r q => rw [hm.2.2.2] at h; exact h
+
+theorem keyReuse_run (tr : List Obs) (s s' : State) (hr : runFrom s tr = some s') (h : s'.keyReuse = false) :
+    s.keyReuse = false := by
+  induction tr generalizing s with
+  | nil => simp only [runFrom, Option.some.injEq] at hr; subst hr; exact h
+  | cons o os ih =>
+    obtain ⟨s1, h1, h2⟩ := runFrom_cons hr
+    exact keyReuse_sticky s s1 o h1 (ih s1 h2)
+
+theorem winv_run (tr : List Obs) (s s' : State) (hist : List (Nat × Nat × Nat)) (h : WInv s hist)
+    (hr : runFrom s tr = some s') (hp : ∀ o ∈ tr, isPoke o = false) (hk : s'.keyReuse = false) :
+    WInv s' (hist ++ tr.filterMap writtenPair) := by
+  induction tr generalizing s hist with
+  | nil => simp only [runFrom, Option.some.injEq] at hr; subst hr; simpa using h
+  | cons o os ih =>
+    obtain ⟨s1, h1, h2⟩ := runFrom_cons hr
+    have hk1 : s1.keyReuse = false := keyReuse_run os s1 s' h2 hk
+    have := ih s1 _ (winv_step s s1 o hist h h1 (hp o (by simp)) hk1) h2 (fun x hx => hp x (by simp [hx]))
+    rw [List.append_assoc] at this
+    cases hw : writtenPair o with
+    | none => simpa [List.filterMap_cons, hw] using this
+    | some p => simpa [List.filterMap_cons, hw] using this
+
+/-- **No (session key, sequence number) pair is used twice.**  Over ANY accepted trace from the initial state —
+any number of sessions on the one object — in which the harness does not poke the counter and no `connect()`
+restarted the counters under a still active session key (`keyReuse = false`; that can only happen after `stop()`
+failed on an exhausted 48-bit counter), the wrappers written carry pairwise distinct (key epoch, sequence number)
+pairs. -/
+theorem written_pairs_distinct (tr : List Obs) (s' : State) (hr : runFrom init tr = some s')
+    (hp : ∀ o ∈ tr, isPoke o = false) (hk : s'.keyReuse = false) : (tr.filterMap writtenPair).Nodup := by
+  have h0 : WInv init [] := by
+    refine ⟨?_, ?_, ?_, List.nodup_nil, rfl, Or.inr ⟨rfl, rfl, rfl, rfl⟩⟩
+    · simp
+    · simp [init]
+    · simp
+  have := (winv_run tr init s' [] h0 hr hp hk).2.2.2.1
+  simpa using this
 
 end XknxVerif.Props.C29
